@@ -126,6 +126,9 @@ def make_call(rng, idx, tier):
             tol = 5e-3
             if name == "line_segment_to_circle":
                 tags = {"tied_line_minima_clamp_differently": _tied_minima_outside(p1, p2, L)}
+        if prims.has_sliver(p1, p2):
+            # mechanism of K18: the triangle functions' region tests cancel for sliver triangles, the last bits decide
+            tags = dict(tags or {}, sliver_triangle=True)
         return {"fn": "distance." + name, "thunk": th, "L": L, "tags": tags,
                 "tol": tol, "discrete": "always", "cls": "structured" if sc.structured else ("contact" if sc.contact else "generic"),
                 "desc": {"p1": p1.describe(), "p2": p2.describe()}, "tolmap": {"points": 1e-7}}
